@@ -63,9 +63,12 @@ func Harness_C16_route() {
 	s, m, cs, _ := vNewUpstreamServer()
 	// other upstreams already connected (same or different endpoint)
 	others := v.Choose("others", 3)
+	var otherUps []*vUp
 	for i := 0; i < others; i++ {
 		ep := []string{"e0", "e1"}[v.Choose("other.ep", 2)]
-		m.AddConn(&vUp{id: i, ep: ep})
+		u := &vUp{id: i, ep: ep}
+		otherUps = append(otherUps, u)
+		m.AddConn(u)
 	}
 	before := m.Endpoints()
 	beforeAdv := map[string]int{"e0": cs.LocalEndpointListeners("e0"), "e1": cs.LocalEndpointListeners("e1")}
@@ -161,6 +164,12 @@ func Harness_C16_route() {
 	}
 	for _, k := range []string{"e0", "e1"} {
 		v.Assert("C16/advertisement-restored", cs.LocalEndpointListeners(k) == beforeAdv[k])
+	}
+	// exactly the connection that ended was deregistered: every other
+	// upstream (same or different endpoint) is still registered
+	for _, u := range otherUps {
+		lb, ok := m.localUpstreams[u.ep]
+		v.Assert("C16/other-upstreams-still-registered", ok && vIndexOf(lb, u) >= 0)
 	}
 }
 
